@@ -44,6 +44,9 @@ def FLOORS(tier):
     return f
 
 
+_MISSING = object()
+
+
 # ---- deep snapshots -----------------------------------------------------------------------------------------------------
 def snap(o, depth=0):
     if depth > 6:
@@ -53,13 +56,27 @@ def snap(o, depth=0):
         if type(o) is dict:
             return ("dict", items)
         extra = [type(o).__name__, getattr(o, "name", None)]
-        if hasattr(o, "_variables"):      # bookkeeping is part of the model's observable state (variables, degree, max_index)
-            extra.append((tuple(sorted(map(repr, o._variables))), repr(o._degree), o._num_binary_variables))
-        if hasattr(o, "_mapping"):
-            extra.append(tuple(sorted((repr(k), v) for k, v in o._mapping.items())))
-        if hasattr(o, "_constraints"):
-            extra.append(tuple(sorted((k, tuple(snap(p, depth + 1) for p in v)) for k, v in o._constraints.items())))
-            extra.append(o._ancilla)
+        # bookkeeping is part of the model's observable state (variables, degree, count, mapping, recorded constraints).  Read through
+        # the private names when they exist (no copies, no monitored calls), through the public accessors otherwise: a refactoring
+        # that renames or drops a private attribute must not look like a violation
+        def _get(priv, pub):
+            v = o.__dict__.get(priv, _MISSING) if hasattr(o, "__dict__") else _MISSING
+            if v is _MISSING:
+                try:
+                    v = getattr(o, pub)
+                except Exception:   # noqa
+                    v = None
+            return v
+        if hasattr(o, "variables") and hasattr(o, "num_binary_variables"):
+            vs_ = _get("_variables", "variables")
+            extra.append((tuple(sorted(map(repr, vs_ or ()))), repr(_get("_degree", "degree")), _get("_num_binary_variables", "num_binary_variables")))
+        if hasattr(o, "mapping"):
+            mp_ = _get("_mapping", "mapping")
+            extra.append(tuple(sorted((repr(k), v) for k, v in (mp_ or {}).items())))
+        if hasattr(o, "constraints") and hasattr(o, "num_ancillas"):
+            cs_ = _get("_constraints", "constraints")
+            extra.append(tuple(sorted((k, tuple(snap(p, depth + 1) for p in v)) for k, v in (cs_ or {}).items())))
+            extra.append(_get("_ancilla", "num_ancillas"))
         return ("model", tuple(map(repr, extra)), items)
     if isinstance(o, (list, tuple)):
         return (type(o).__name__, tuple(snap(x, depth + 1) for x in o))
